@@ -76,6 +76,8 @@ _k("if", [B, N, N], p.If, ["if"])
 _k("min2", [N, N], _nary(p.Min), ["minmax"])
 _k("max2", [N, N], _nary(p.Max), ["minmax"])
 _k("min3", [N, N, N], _nary(p.Min), ["minmax"])
+_k("min1", [N], lambda a: p.Min((a,)), ["minmax"])
+_k("max1", [N], lambda a: p.Max((a,)), ["minmax"])
 _k("max3", [N, N, N], _nary(p.Max), ["minmax"])
 _k("call0", ["fn"], lambda f: p.Call(f, ()), ["call"])
 _k("call1", ["fn", N], lambda f, a: p.Call(f, (a,)), ["call"])
